@@ -34,6 +34,7 @@ type subState struct {
 	db       string
 	prefix   string
 	hasWhere bool
+	pred     func(map[string]any) (matches, sure bool) // the meaning of a known where-clause (see knownClauses), else nil
 }
 
 type model struct {
@@ -81,7 +82,55 @@ func subFor(op, text string) (*subState, bool) {
 	if _, err := q.Check(); err != nil {
 		return nil, false
 	}
-	return &subState{op: op, db: q.DatabaseName(), prefix: q.DatabaseKeyPrefix(), hasWhere: strings.Contains(q.Print(), " where ")}, true
+	st := &subState{op: op, db: q.DatabaseName(), prefix: q.DatabaseKeyPrefix(), hasWhere: strings.Contains(q.Print(), " where ")}
+	if i := strings.Index(text, " where "); i >= 0 {
+		st.pred = knownClauses[strings.TrimSpace(text[i:])]
+	}
+	return st, true
+}
+
+// knownClauses: where-clauses of the generator whose meaning is spelled out here by hand (not taken from the parser under
+// test), over the fields N (an integer) and B (a boolean). A predicate answers (matches, sure); it is sure only when
+// the fields it looks at are absent or of the type the operator is made for - what a condition does with a value of
+// another type is not a matter of this property.
+var knownClauses = map[string]func(map[string]any) (bool, bool){
+	"where N > 0":                  func(o map[string]any) (bool, bool) { n, ok, sure := intField(o, "N"); return ok && n > 0, sure },
+	"where not N > 3":              func(o map[string]any) (bool, bool) { n, ok, sure := intField(o, "N"); return !(ok && n > 3), sure },
+	"where not N > 3 and B is true": func(o map[string]any) (bool, bool) {
+		n, ok, sure := intField(o, "N")
+		b, bok, bsure := boolField(o, "B")
+		return !(ok && n > 3) && bok && b, sure && bsure
+	},
+	"where not N > 3 or B is true": func(o map[string]any) (bool, bool) {
+		n, ok, sure := intField(o, "N")
+		b, bok, bsure := boolField(o, "B")
+		return !(ok && n > 3) || (bok && b), sure && bsure
+	},
+}
+
+func intField(o map[string]any, name string) (v int64, present, sure bool) {
+	x, ok := o[name]
+	if !ok {
+		return 0, false, true
+	}
+	num, isNum := x.(json.Number)
+	if !isNum {
+		return 0, false, false
+	}
+	i, err := num.Int64()
+	if err != nil || i > 1<<52 || i < -(1<<52) {
+		return 0, false, false
+	}
+	return i, true, true
+}
+
+func boolField(o map[string]any, name string) (v, present, sure bool) {
+	x, ok := o[name]
+	if !ok {
+		return false, false, true
+	}
+	b, isBool := x.(bool)
+	return b, isBool, isBool
 }
 
 func (s *subState) matchesKey(key string) bool {
@@ -269,6 +318,28 @@ func (r *runner) checkNotifications(bad func(string, ...any), classes map[string
 						}
 						classes["notification_content_checked"]++
 					}
+				}
+			}
+		}
+		// subscriptions with a condition whose meaning is known: announced if and only if the written object satisfies it
+		if s.pred != nil {
+			for _, w := range writes {
+				if !s.matchesKey(w.key) || w.isDelete() || w.kind == kInsert || len(w.payload) < 2 || w.payload[0] != 'J' || w.optional[op] {
+					continue
+				}
+				obj, ok := decodeObject(w.payload[1:])
+				if !ok {
+					continue
+				}
+				m, sure := s.pred(obj)
+				switch {
+				case !sure:
+				case m && !w.used[op]:
+					bad("subscription %q (%s:%s with a condition) never announced the %s of %q, whose object %v satisfies the condition", op, s.db, s.prefix, w.kind, w.key, obj)
+				case !m && w.used[op]:
+					bad("subscription %q (%s:%s with a condition) announced the %s of %q, whose object %v does not satisfy the condition", op, s.db, s.prefix, w.kind, w.key, obj)
+				default:
+					classes["sub_condition_judged_against_written_object"]++
 				}
 			}
 		}
